@@ -116,3 +116,64 @@ Example C03_builder_nonvacuous :
   (exists s', transact bytewise kp (fun _ => 100%N) [] 1000 [] 9 true 10 size [fl; ap; o_ok] (map IGood ex3_in) (bst0 [])
               = (s', TDone) /\ fin s' = [[ex3 1 9 1 90]] /\ drop s' = 3%N).
 Proof. split; eexists; (split; [vm_compute; reflexivity|]); vm_compute; split; reflexivity. Qed.
+
+(* ------------------------------------------------------------------------------------------------------------------
+   PREORDER COMPARERS (Base/OrderPre.v comparer_pre_ok: byte-different keys may compare equal and are then ONE user
+   key; see Props/C01.v (P)).  Snapshot stability, the drop rule and the whole-compaction theorem re-proved without
+   the injectivity field cmp_eq; "same user key" is cmp c a b = Eq throughout.  The theorems above are the special
+   cases for injective comparers.  The builder theorems (C03_builder_retry_preserves_reads, C03_builder_compaction_preserves) still assume comparer_ok. *)
+From GL Require Import Base.OrderPre Codec.CiCmp Codec.CiCmpProofs Lsm.CompactPre Lsm.LsmPreProofs Lsm.CompactPreProofs
+  Lsm.HistoryPreProofs Lsm.ReorgPreProofs Lsm.WfPreProofs.
+
+Theorem C03_snapshot_stable_pre : forall c, comparer_pre_ok c -> forall p ops1 ops2 k,
+  hops_ok c p h_init (ops1 ++ ops2) ->
+  In (h_seq (hrun ops1)) (h_snaps (hrun (ops1 ++ ops2))) ->
+  store_get c p (hrun (ops1 ++ ops2)) k (h_seq (hrun ops1)) = a_get c k (map_of c p ops1).
+Proof. exact snapshot_stable_pre. Qed.
+Print Assumptions C03_snapshot_stable_pre.
+
+Theorem C03_drop_rule_sound_pre : forall c, comparer_pre_ok c -> forall p, kparams_ok p ->
+  forall minSeq base, (minSeq < keyMaxSeq p)%N -> forall k s l,
+  ssorted c l -> kinds_ok p l -> (minSeq <= s)%N ->
+  CompactProofs.res p (newest c k s (drop_run c p minSeq base None l) None) = CompactProofs.res p (newest c k s l None).
+Proof. exact drop_rule_sound_pre. Qed.
+Print Assumptions C03_drop_rule_sound_pre.
+
+Theorem C03_compaction_preserves_pre : forall c, comparer_pre_ok c -> forall p, kparams_ok p ->
+  forall minSeq base, (minSeq < keyMaxSeq p)%N -> forall I O,
+  kinds_ok p I -> uniqE c I -> uniq_inE c (I ++ O) ->
+  (forall o i, In o O -> In i I -> cmp c (e_uk o) (e_uk i) = Eq ->
+     (e_seq i < e_seq o)%N \/ ((e_seq o < e_seq i)%N /\ base (e_uk i) = false)) ->
+  forall k s, (minSeq <= s)%N ->
+  History.res p (newest c k s (drop_run c p minSeq base None (isort c I) ++ O) None) =
+  History.res p (newest c k s (I ++ O) None).
+Proof. exact compaction_preserves_pre. Qed.
+Print Assumptions C03_compaction_preserves_pre.
+
+Theorem C03_certificatec_sound : forall c, comparer_pre_ok c -> forall p, kparams_ok p ->
+  forall minSeq deeper I O outs,
+  compaction_certc c p minSeq deeper I O outs = true ->
+  concat outs = drop_run c p minSeq (is_base c deeper) None (isort c I) ->
+  forall k s, (minSeq <= s)%N ->
+  History.res p (newest c k s (concat outs ++ O) None) = History.res p (newest c k s (I ++ O) None).
+Proof. exact certificatec_sound. Qed.
+Print Assumptions C03_certificatec_sound.
+
+(* Non-vacuity under the non-injective comparer of the harness (id 4): "Key" (seq 3) overwritten as "KEY" (seq 9),
+   "ab" (seq 2) deleted as "AB" (seq 8).  With a snapshot at 6 everything is kept; with minSeq = 9 the hidden
+   versions go, and at base level the marker too — although the spellings differ. *)
+Definition ex3c (u : bytes) (s kd v : N) : entry := {| e_uk := u; e_seq := s; e_kind := kd; e_val := [v] |}.
+Definition ex3c_in : list entry :=
+  [ex3c [65; 66]%N 8 0 0; ex3c [97; 98]%N 2 1 20; ex3c [75; 69; 89]%N 9 1 90; ex3c [75; 101; 121]%N 3 1 30].
+Example C03_casefold_nonvacuous :
+  comparer_pre_ok cicmp /\ ~ comparer_ok cicmp /\
+  ssorted cicmp ex3c_in /\ kinds_ok kp ex3c_in /\
+  drop_run cicmp kp 6 (fun _ => true) None ex3c_in = ex3c_in /\
+  drop_run cicmp kp 9 (fun _ => false) None ex3c_in = [ex3c [65; 66]%N 8 0 0; ex3c [75; 69; 89]%N 9 1 90] /\
+  drop_run cicmp kp 9 (fun _ => true) None ex3c_in = [ex3c [75; 69; 89]%N 9 1 90].
+Proof.
+  split; [exact cicmp_pre_ok|]. split; [exact cicmp_not_injective|].
+  split; [|split; [|repeat split; vm_compute; reflexivity]].
+  - cbn. repeat split; repeat constructor; vm_compute; reflexivity.
+  - repeat constructor; vm_compute; congruence.
+Qed.
